@@ -255,7 +255,7 @@ def to_smt2(hyps, goal):
     return s.to_smt2()
 
 
-def _solve(job):
+def _solve(job, fallbacks=True):
     name, smt2, timeout = job
     t0 = time.time()
     try:
@@ -266,7 +266,7 @@ def _solve(job):
         res = str(r)
         reason = s.reason_unknown() if res == 'unknown' else ''
         back = 'z3-api'
-        if res != 'unsat':
+        if res != 'unsat' and fallbacks:
             # fall-backs: cvc5 and the z3 CLI (different version) on the same SMT-LIB text
             for tool, cmd in (('cvc5', ['/usr/bin/cvc5', '--lang=smt2', f'--tlimit={timeout}', '--full-saturate-quant']),
                               ('z3-4.8-cli', ['/usr/bin/z3', '-smt2', f'-T:{max(1, timeout // 1000)}', '-in'])):
@@ -384,3 +384,219 @@ def aggregate(name):
     """stable obligation name: function#clause without line numbers / path indices"""
     import re
     return re.sub(r'@\d+', '', name)
+
+
+# ---------------------------------------------------------------------------------------------------------------
+# per-property orchestration
+ENCODING_ASSUMPTIONS = [
+    'Python integers are mathematical integers (true in Python); `None` in optional ints is tracked by a separate flag',
+    'dict/set are finite maps/sets modelled as has/val arrays; distinct attributes never alias',
+    'attribute lookup on a manager resolves to the methods in the repository (no monkey-patching)',
+    'recursion depth is unbounded (no RecursionError); termination is not proved (partial correctness)',
+    'KeyError/IndexError/TypeError(None) on subscripts and arithmetic are obligations, not assumptions',
+    "RuntimeError('full: reached max_nodes') is never raised: max_nodes (sys.maxsize by default) is never reached",
+    'logging and warnings calls are no-ops; exception messages (f-strings) are not evaluated',
+    'frame rule for ghost families: only find_or_add, _init_terminal/add_var and collect_garbage write node fields; '
+    'they are verified against all families, so a caller may reason with the families it names',
+]
+
+
+def _gen_job(args):
+    """worker: generate obligations for one target and return them serialised"""
+    target, modname = args
+    import importlib
+    C = importlib.import_module(modname)
+    C.install()
+    t0 = time.time()
+    target = materialise(target)
+    try:
+        ex, paths, info = generate(target, C.REG)
+    except Unsupported as e:
+        return dict(target=target_id(target), status='unsupported', reason=str(e), info=dict(function=target['function']))
+    except Exception:  # noqa
+        return dict(target=target_id(target), status='error', reason=traceback.format_exc()[-2000:], info=dict(function=target['function']))
+    jobs = []
+    for name, hyps, goal, meta in ex.obls:
+        if meta.get('trivial'):
+            jobs.append(dict(name=name, trivial=True, parts=[]))
+            continue
+        parts = [to_smt2(hp, gp) for hp, gp in split_goal(hyps, goal)]
+        jobs.append(dict(name=name, trivial=False, parts=parts, line=meta.get('line')))
+    # reachability cover (vacuity guard b): at least one normal-return path must not be provably dead
+    live = []
+    for p in paths:
+        if p.status == 'return' or p.status == 'run':
+            live.append(to_smt2(p.pc, BoolVal(False)))
+    contracts_used = sorted(set(ex.calls))
+    assumed = sorted({c for c in contracts_used if C.REG[c].assumed})
+    return dict(target=target_id(target), status='ok', info=info, jobs=jobs, live=live, gen_secs=round(time.time() - t0, 2),
+                assumed=assumed, builtins=sorted(ex.assumed_builtins), assumed_paths=getattr(ex, 'assumed_paths', 0),
+                notes=[C.REG[c].note for c in contracts_used if C.REG[c].note])
+
+
+def target_id(t):
+    return t.get('contract', t['function']) + (f"[{t['variant']}]" if t.get('variant') else '')
+
+
+def verify_targets(targets, modname='vlib.vc.contracts_all', timeout=TIMEOUT_MS, stop_after_failures=6):
+    """Returns list of per-target results with per-obligation verdicts."""
+    results = []
+    with cf.ProcessPoolExecutor(max_workers=NPROC) as pool:
+        gens = list(pool.map(_gen_job, [(t, modname) for t in targets], chunksize=1))
+        # flatten solver jobs
+        flat = []
+        for gi, g in enumerate(gens):
+            if g['status'] != 'ok':
+                continue
+            for oi, ob in enumerate(g['jobs']):
+                for pi, smt in enumerate(ob['parts']):
+                    flat.append(((gi, oi, pi), smt, timeout))
+            for li, smt in enumerate(g['live']):
+                flat.append(((gi, 'live', li), smt, 1500))
+        verdict = {}
+        for key, res, back, secs, reason in pool.map(_solve_keyed, flat, chunksize=4):
+            verdict[key] = (res, back, secs, reason)
+    for gi, g in enumerate(gens):
+        r = dict(target=g['target'], status=g['status'], info=g.get('info', {}), reason=g.get('reason', ''),
+                 assumed=g.get('assumed', []), builtins=g.get('builtins', []), notes=g.get('notes', []), obligations=[])
+        if g['status'] == 'ok':
+            for oi, ob in enumerate(g['jobs']):
+                if ob['trivial']:
+                    r['obligations'].append(dict(name=ob['name'], result='unsat', backend='trivial', secs=0.0))
+                    continue
+                rs = [verdict[(gi, oi, pi)] for pi in range(len(ob['parts']))]
+                ok = all(x[0] == 'unsat' for x in rs)
+                r['obligations'].append(dict(name=ob['name'], result='unsat' if ok else next(x[0] for x in rs if x[0] != 'unsat'),
+                                             backend='+'.join(sorted({x[1] for x in rs})), secs=round(sum(x[2] for x in rs), 3),
+                                             parts=len(rs), line=ob.get('line'),
+                                             reason=next((x[3] for x in rs if x[0] != 'unsat'), '')))
+            lives = [verdict[(gi, 'live', li)][0] for li in range(len(g['live']))]
+            r['return_paths'] = len(lives)
+            r['dead_return_paths'] = sum(1 for x in lives if x == 'unsat')
+            r['gen_secs'] = g['gen_secs']
+        results.append(r)
+    return results
+
+
+def _solve_keyed(job):
+    key, smt, timeout = job
+    name, res, back, secs, reason = _solve((str(key), smt, timeout), fallbacks=(key[1] != 'live'))
+    return key, res, back, secs, reason
+
+
+def materialise(target):
+    """constants named in a target (JSON-friendly spec -> symbolic values)"""
+    t = dict(target)
+    if 'consts_spec' in t:
+        t['consts'] = {k: IntV(z3.IntVal(v)) for k, v in t.pop('consts_spec').items()}
+    return t
+
+
+def load_baseline():
+    p = os.path.join(ROOT, 'vlib', 'vc', 'baseline.json')
+    return json.load(open(p)) if os.path.exists(p) else {}
+
+
+def summarise(results):
+    """aggregate per target: obligation name (without line numbers) -> (total, discharged)"""
+    out = {}
+    for r in results:
+        agg = {}
+        for o in r.get('obligations', []):
+            a = agg.setdefault(aggregate(o['name']), [0, 0])
+            a[0] += 1
+            a[1] += o['result'] == 'unsat'
+        out[r['target']] = dict(status=r['status'], source_hash=r.get('info', {}).get('source_hash'), obligations=agg,
+                                reason=r.get('reason', ''))
+    return out
+
+
+def run_property(pid, proof_cfg, tier, seed):
+    from vlib.vc import contracts_all as CA
+    CA.install()
+    targets = list(CA.TARGETS.get(pid, []))
+    t0 = time.time()
+    results = verify_targets(targets)
+    base = load_baseline()
+    fails, crashes, undecided, samples = [], [], [], []
+    n_obl = n_dis = 0
+    backends, solver_secs = {}, 0.0
+    functions = []
+    trusted = set()
+    for r in results:
+        tid = r['target']
+        b = base.get(tid, {})
+        functions.append(dict(function=r['info'].get('function'), contract=tid, source_hash=r['info'].get('source_hash'),
+                              lines=r['info'].get('lines'), status=r['status']))
+        for a in r.get('assumed', []):
+            trusted.add(f'assumed contract (bounded-checked): {a}')
+        for a in r.get('builtins', []):
+            trusted.add(f'builtin/idiom semantics assumed: {a}')
+        for nt in r.get('notes', []):
+            trusted.add(nt)
+        if r['status'] == 'unsupported':
+            undecided.append(dict(target=tid, reason='out of subset: ' + r['reason']))
+            if b.get('status') == 'ok' and b.get('source_hash') == r['info'].get('source_hash'):
+                crashes.append(dict(fn='proof-layer', tb=f'{tid}: engine rejects unchanged source that it accepted at baseline: {r["reason"]}'))
+            continue
+        if r['status'] == 'error':
+            crashes.append(dict(fn='proof-layer', tb=f'{tid}: {r["reason"]}'))
+            continue
+        if not r['obligations']:
+            crashes.append(dict(fn='vacuity', tb=f'{tid}: zero obligations generated'))
+        if r.get('return_paths', 0) and r['dead_return_paths'] == r['return_paths']:
+            crashes.append(dict(fn='vacuity', tb=f'{tid}: every return path is provably unreachable (contradictory precondition?)'))
+        changed = b.get('source_hash') is not None and b.get('source_hash') != r['info'].get('source_hash')
+        for o in r['obligations']:
+            n_obl += 1
+            solver_secs += o['secs']
+            for be in o['backend'].split('+'):
+                backends[be] = backends.get(be, 0) + 1
+            if o['result'] == 'unsat':
+                n_dis += 1
+                if len(samples) < 5 and o['backend'] != 'trivial':
+                    samples.append(dict(obligation=o['name'], backend=o['backend'], secs=o['secs']))
+                continue
+            agg = aggregate(o['name'])
+            was = b.get('obligations', {}).get(agg)
+            rec = dict(target=tid, obligation=o['name'], result=o['result'], reason=o.get('reason', ''), line=o.get('line'))
+            if (changed or not b) and (was is None or was[0] == was[1]) and b:
+                # discharged on the unchanged tree, source of the function changed, now undischarged
+                fails.append(dict(site=f'obligation:{agg}', detail=f'obligation {o["name"]} was discharged for the baseline source '
+                                  f'(hash {b.get("source_hash")}) and is no longer discharged for the current source '
+                                  f'(hash {r["info"].get("source_hash")}, lines {r["info"].get("lines")}); solver: {o["result"]} {o.get("reason", "")}',
+                                  obligation=o['name'], target=tid, solver_output=f'{o["result"]} {o.get("reason", "")}', no_input=True,
+                                  function=r['info'].get('function')))
+            else:
+                undecided.append(dict(**rec, note='source unchanged since baseline: solver instability, not a violation'
+                                      if b and not changed else 'no baseline for this target'))
+    trusted.update('encoding: ' + a for a in ENCODING_ASSUMPTIONS)
+    cov = dict(functions_under_contract=functions, obligations=n_obl, discharged=n_dis, backends=backends,
+               solver_seconds=round(solver_secs, 1), proof_wall_s=round(time.time() - t0, 1), undecided=undecided[:40],
+               samples=samples, trusted_base=sorted(trusted),
+               checker_cmd=f'bin/check {pid} --tier {tier}  (proof layer: vlib/vc, z3 {z3.get_version_string()} + cvc5/z3 CLI fall-backs)')
+    return dict(coverage=cov, fails=fails, crashes=crashes, assumptions=[])
+
+
+def replay_obligation(rec):
+    """bin/replay for a proof-layer record: re-verify the target, exit 1 if the obligation is still undischarged."""
+    from vlib.vc import contracts_all as CA
+    CA.install()
+    tid = rec['target']
+    for pid, ts in CA.TARGETS.items():
+        for t in ts:
+            if target_id(t) == tid:
+                res = verify_targets([t])[0]
+                want = aggregate(rec['obligation'])
+                bad = [o for o in res.get('obligations', []) if aggregate(o['name']) == want and o['result'] != 'unsat']
+                if res['status'] != 'ok':
+                    print(f'undecided: {res["status"]} {res.get("reason", "")}')
+                    return 2
+                if bad:
+                    print(f'REPRODUCED property={rec["property"]} obligation {want} is not discharged on this tree: '
+                          f'{bad[0]["result"]} {bad[0].get("reason", "")}')
+                    return 1
+                print('not reproduced: the obligation is discharged on this tree')
+                return 0
+    print('unknown target', tid)
+    return 3
